@@ -622,6 +622,14 @@ impl Board {
             return false;
         }
 
+        // make sure neither side has more men than a chess set: the move list of the
+        // generator holds one entry per man plus two en-passant entries (18 slots)
+        if self.color_combined(Color::White).popcnt() > 16
+            || self.color_combined(Color::Black).popcnt() > 16
+        {
+            return false;
+        }
+
         // make sure the en_passant square has a pawn on it of the right color
         match self.en_passant {
             None => {}
